@@ -443,8 +443,12 @@ class SockRun:
 def sock_run_script(reading0, ntasks, ops, quiesce=True, tolerant=False):
     with SockRun(reading0, ntasks) as r:
         for (c, a, b, pl) in ops:
-            if tolerant and not r.possible(c, a):
-                continue
+            if not r.possible(c, a):
+                if tolerant:
+                    continue
+                # a stored script no longer fits the implementation: stop here; the executed prefix is still compared
+                r.flags.add("script_diverged")
+                break
             r.do(c, a, b, pl)
         if quiesce:
             r.quiesce()
@@ -564,3 +568,664 @@ def sock_exhaustive(ntasks: int, depth: int, reading0: bool):
 
     rec([])
     return results
+
+
+# ------------------------------------------------------------------------------------------------------------
+# Part (a2): UnixLoop  —  real UNIXSocketStream.send/receive over a scripted fake raw socket
+# ------------------------------------------------------------------------------------------------------------
+
+U_OK, U_READY, U_CANCEL, U_CLOSE, U_ERR = range(5)
+UOPN = {0: "Ok", 1: "Block/Ready", 2: "Block/Cancel", 3: "Block/Close", 4: "Err"}
+
+
+class ScriptExhausted(BaseException):
+    """The fake kernel has no answer left (the real code made more calls than the script allows)."""
+
+
+class FakeRawSocket:
+    def __init__(self, run):
+        self.run = run
+        self.closed = False
+        self.family = None
+
+    def fileno(self):
+        return -1 if self.closed else 99
+
+    def close(self):
+        self.closed = True
+
+    def shutdown(self, how):
+        pass
+
+    def _next(self):
+        r = self.run
+        if r.pos >= len(r.script):
+            raise ScriptExhausted()
+        e = r.script[r.pos]
+        r.pos += 1
+        r.calls += 1
+        return e
+
+    def send(self, view):
+        r = self.run
+        arg = bytes(view)
+        r.send_args.append(arg)
+        e = self._next()
+        if e[0] == U_OK:
+            n = e[1]
+            r.handed += arg[:n]
+            return n
+        if e[0] == U_ERR:
+            raise OSError(9 if self.closed else 32, "injected")
+        r.pending_wake = e[0]
+        raise BlockingIOError()
+
+    def recv(self, n):
+        r = self.run
+        r.recv_args.append(n)
+        e = self._next()
+        if e[0] == U_OK:
+            return bytes(e[2])
+        if e[0] == U_ERR:
+            raise OSError(9 if self.closed else 104, "injected")
+        r.pending_wake = e[0]
+        raise BlockingIOError()
+
+
+class UnixRun:
+    """One call of UNIXSocketStream.send / receive against the oracle script, on SchedLoop."""
+
+    def __init__(self, kind, cancel0, busy, closing0, mx, item, script):
+        self.kind, self.cancel0, self.busy, self.closing0 = kind, cancel0, busy, closing0
+        self.mx, self.item, self.script = mx, list(item), [tuple(e) for e in script]
+        self.pos = 0
+        self.calls = 0
+        self.waits = 0
+        self.handed = bytearray()
+        self.send_args: list[bytes] = []
+        self.recv_args: list[int] = []
+        self.pending_wake = None
+        self.mon: list[str] = []
+        self.flags: set[str] = set()
+
+    def valid(self) -> bool:
+        """aclose() wakes a waiting call only once: a wait cannot end by 'close' on an already closed stream."""
+        ncl = sum(1 for e in self.script if e[0] == U_CLOSE)
+        return ncl <= (0 if self.closing0 else 1)
+
+    def case(self) -> list[int]:
+        out = [self.kind, int(self.cancel0), int(self.busy), int(self.closing0), self.mx, len(self.item), *self.item]
+        for e in self.script:
+            if self.kind == 0:
+                out += [e[0], e[1]]
+            else:
+                pl = list(e[2]) if e[0] == U_OK else []
+                out += [e[0], len(pl), *pl]
+        return out
+
+    def execute(self):
+        import anyio
+        from anyio._backends import _asyncio as be
+        from puppet import World
+
+        w = World()
+        regs = {"r": {}, "w": {}}
+        loop = w.loop
+
+        def add_reader(fd, cb, *a):
+            regs["r"][id(fd)] = (cb, a)
+            self.waits += 1
+
+        def add_writer(fd, cb, *a):
+            regs["w"][id(fd)] = (cb, a)
+            self.waits += 1
+
+        loop.add_reader = add_reader
+        loop.add_writer = add_writer
+        loop.remove_reader = lambda fd: regs["r"].pop(id(fd), None) is not None
+        loop.remove_writer = lambda fd: regs["w"].pop(id(fd), None) is not None
+
+        def flush_other():
+            # run the ready entries that are not puppet steps (future done-callbacks), FIFO
+            for _ in range(20):
+                hs = [h for h in loop.ready_handles()
+                      if getattr(h._callback, "__self__", None) not in [p.task for p in w.puppets.values()]]
+                if not hs:
+                    break
+                loop.run_handle(hs[0])
+
+        with w.session():
+            try:
+                sock = FakeRawSocket(self)
+                stream = be.UNIXSocketStream(sock)
+                w.spawn(1)
+                w.spawn(2)
+                if self.closing0:
+                    async def closer(p):
+                        await stream.aclose()
+                    assert w.act(2, closer) == ("ok", None)
+                guard = stream._send_guard if self.kind == 0 else stream._receive_guard
+                if self.busy:
+                    guard._guarded = True     # another task is inside the same direction
+                item = bytes(self.item)
+                if self.kind == 0:
+                    async def cmd(p):
+                        return await stream.send(item)
+                else:
+                    mx = self.mx
+
+                    async def cmd(p):
+                        return await stream.receive(mx)
+                out = w.act(1, cmd)
+                if out[0] == "blocked" and self.cancel0:
+                    w.puppets[1].task.cancel()
+                steps = 0
+                while out is not None and out[0] == "blocked" and steps < 200:
+                    steps += 1
+                    if not w.runnable(w.puppets[1]):
+                        # suspended on the readiness future: end the wait as the script says
+                        wk = self.pending_wake
+                        self.pending_wake = None
+                        reg = regs["w" if self.kind == 0 else "r"]
+                        if wk == U_READY:
+                            if not reg:
+                                self.mon.append("waiting for readiness without add_reader/add_writer registration")
+                                break
+                            cb, a = next(iter(reg.values()))
+                            cb(*a)
+                        elif wk == U_CANCEL:
+                            w.puppets[1].task.cancel()
+                        elif wk == U_CLOSE:
+                            async def closer(p):
+                                await stream.aclose()
+                            w.act(2, closer)
+                        else:
+                            self.mon.append("task suspended although the kernel did not answer would-block")
+                            break
+                        flush_other()
+                    out = w.resume(1)
+                self.outcome = out
+                self.closing_after = bool(stream._closing)
+                self.guard_after = bool(guard._guarded)
+                if regs["r"] or regs["w"]:
+                    flush_other()
+                if regs["r"] or regs["w"]:
+                    self.mon.append("reader/writer registration leaked after the call ended")
+                if loop.errors:
+                    self.mon.append(f"loop errors: {loop.errors[:2]}")
+            finally:
+                w.close()
+        self.observe(anyio)
+        self.monitor()
+        return self
+
+    def observe(self, anyio):
+        out = self.outcome
+        if out is None or out[0] == "blocked":
+            r = [13]
+        elif out[0] == "ok":
+            v = out[1]
+            r = [3, len(v), *v] if isinstance(v, (bytes, bytearray)) else [0]
+        else:
+            v = out[1]
+            r = [12]
+            for cls, code in ((CancelledError, 2), (anyio.EndOfStream, 4), (anyio.ClosedResourceError, 5),
+                              (anyio.BrokenResourceError, 6), (anyio.BusyResourceError, 7), (ValueError, 8),
+                              (ScriptExhausted, 9)):
+                if isinstance(v, cls):
+                    r = [code]
+                    break
+        self.res = r
+        self.expected = r + [self.calls, self.waits, int(self.closing_after), int(self.guard_after), -1, *self.handed]
+
+    def monitor(self):
+        m = self.mon.append
+        k = self.res[0]
+        item = bytes(self.item)
+        if self.kind == 0:
+            off = 0
+            acc = 0
+            for i, arg in enumerate(self.send_args):
+                if arg != item[off:]:
+                    m(f"send() call {i} was given {len(arg)} bytes, expected the {len(item) - off} not yet accepted ones (view not advanced correctly)")
+                    break
+                e = self.script[i] if i < len(self.script) else None
+                if e and e[0] == U_OK:
+                    off += min(e[1], len(arg))
+            if not item.startswith(bytes(self.handed)):
+                m("bytes accepted by the kernel are not a prefix of the item (duplicated or reordered)")
+            if k == 0 and bytes(self.handed) != item:
+                m(f"send() returned after the kernel accepted {len(self.handed)} of {len(item)} bytes")
+            if k == 0:
+                self.flags.add("send_done")
+                if any(e[0] == U_OK and 0 < e[1] < len(item) for e in self.script[:self.pos]):
+                    self.flags.add("partial_send")
+        else:
+            if any(a != self.mx for a in self.recv_args):
+                m(f"recv() called with {self.recv_args}, max_bytes={self.mx}")
+            if k == 3:
+                data = bytes(self.res[2:])
+                last = self.script[self.pos - 1] if self.pos else None
+                if not last or last[0] != U_OK or bytes(last[2]) != data:
+                    m("receive() returned something else than the kernel's answer")
+                if len(data) == 0:
+                    m("receive() returned an empty chunk")
+                if len(bytes(last[2])) <= self.mx < len(data):
+                    m("receive() returned more than max_bytes")
+                self.flags.add("recv_data")
+            if k == 4:
+                self.flags.add("recv_eof")
+                last = self.script[self.pos - 1] if self.pos else None
+                if not last or last[0] != U_OK or len(last[2]) != 0:
+                    m("EndOfStream although the kernel did not report EOF")
+        if any(e[0] in (U_READY, U_CANCEL, U_CLOSE) for e in self.script[:self.pos]):
+            self.flags.add("would_block")
+        closed_locally = self.closing0 or any(e[0] == U_CLOSE for e in self.script[:self.pos])
+        if k == 5:
+            self.flags.add("closed_error")
+            if not closed_locally:
+                m("ClosedResourceError on a stream that was not closed locally")
+        if k == 6 and closed_locally:
+            m("BrokenResourceError on a locally closed stream (expected ClosedResourceError)")
+        if k == 7:
+            self.flags.add("busy")
+            if not self.busy:
+                m("BusyResourceError although nobody uses this direction")
+            if self.calls:
+                m("kernel called despite BusyResourceError")
+        elif self.busy and k not in (2, 8):
+            m(f"concurrent use of one direction was not rejected (code {k})")
+        if not self.busy and self.guard_after:
+            m("guard still held after the call ended")
+        if k == 2:
+            self.flags.add("cancelled")
+            if not (self.cancel0 or any(e[0] == U_CANCEL for e in self.script[:self.pos])):
+                m("CancelledError without a cancel request")
+        if k in (9, 12, 13):
+            m(f"call did not end as the oracle script allows (code {k}; 9 = more kernel calls than scripted)")
+
+
+def unix_random_case(rng: random.Random) -> UnixRun:
+    kind = rng.choice([0, 0, 1])
+    cancel0 = rng.random() < 0.06
+    busy = rng.random() < 0.08
+    closing0 = rng.random() < 0.08
+    script = []
+    nb = [0]
+    closing = closing0
+
+    def fresh(n):
+        out = [(nb[0] + i) % 251 for i in range(n)]
+        nb[0] += n
+        return out
+
+    def block():
+        return rng.choices([U_READY, U_CANCEL, U_CLOSE], [6, 1, 0 if closing else 1])[0]
+
+    if kind == 0:
+        n = rng.choice([0, 1, 2, 3, 5, 8, 13, 40])
+        item = fresh(n)
+        rem = n
+        for _ in range(60):
+            if rem <= 0:
+                break
+            x = rng.random()
+            if closing and x < 0.8:
+                script.append((U_ERR, 0))
+                break
+            if x < 0.55:
+                k = rng.randint(1, rem) if rng.random() < 0.9 else rng.choice([0, rem + 1, rem + 3])
+                script.append((U_OK, k))
+                rem -= min(k, rem)
+            elif x < 0.92:
+                wk = block()
+                script.append((wk, 0))
+                if wk == U_CANCEL:
+                    break
+                if wk == U_CLOSE:
+                    closing = True
+            else:
+                script.append((U_ERR, 0))
+                break
+        else:
+            script.append((U_OK, rem))
+        mx = 0
+    else:
+        item = []
+        mx = rng.choice([1, 2, 3, 8, 65536]) if rng.random() < 0.95 else 0
+        for _ in range(12):
+            x = rng.random()
+            if closing and x < 0.8:
+                script.append((U_ERR, 0, ()))
+                break
+            if x < 0.4:
+                k = rng.randint(1, max(1, min(mx, 10))) if rng.random() < 0.9 else mx + 2
+                script.append((U_OK, 0, tuple(fresh(k))))
+                break
+            if x < 0.5:
+                script.append((U_OK, 0, ()))
+                break
+            if x < 0.93:
+                wk = block()
+                script.append((wk, 0, ()))
+                if wk == U_CANCEL:
+                    break
+                if wk == U_CLOSE:
+                    closing = True
+            else:
+                script.append((U_ERR, 0, ()))
+                break
+        else:
+            script.append((U_OK, 0, tuple(fresh(1))))
+    if rng.random() < 0.2:   # unused trailing answers
+        script.append((U_OK, 1) if kind == 0 else (U_OK, 0, (7,)))
+    return UnixRun(kind, cancel0, busy, closing0, mx, item, script)
+
+
+def unix_exhaustive(max_len: int):
+    """Every send script over {Ok1, Ok2, Ready, Cancel, Close, Err} up to max_len for items of 0..3 bytes, and every
+    receive script over {data, eof, Ready, Cancel, Close, Err}; scripts the model runs out of are dropped later."""
+    import itertools
+    runs = []
+    salpha = [(U_OK, 1), (U_OK, 2), (U_READY, 0), (U_CANCEL, 0), (U_CLOSE, 0), (U_ERR, 0)]
+    ralpha = [(U_OK, 0, (5, 6)), (U_OK, 0, ()), (U_READY, 0, ()), (U_CANCEL, 0, ()), (U_CLOSE, 0, ()), (U_ERR, 0, ())]
+    for L in range(0, max_len + 1):
+        for sc in itertools.product(salpha, repeat=L):
+            for n in range(0, 4):
+                runs.append(UnixRun(0, False, False, False, 0, [11, 12, 13][:n], sc))
+        for sc in itertools.product(ralpha, repeat=L):
+            runs.append(UnixRun(1, False, False, False, 2, [], sc))
+    return runs
+
+
+# ------------------------------------------------------------------------------------------------------------
+# Part (b): end-to-end on real sockets (subprocesses running c18_sock_e2e.py) and the check itself
+# ------------------------------------------------------------------------------------------------------------
+
+E2E_CONFIGS = [("tcp", "asyncio"), ("tcp", "uvloop"), ("unix", "asyncio"), ("unix", "uvloop"),
+               ("wrap", "asyncio"), ("wrap", "uvloop")]
+
+NOT_EXHIBITED = [
+    "not exhibited by the model: the kernel's socket buffers and TCP flow control, the asyncio selector transport and "
+    "uvloop's libuv transport (when they call data_received/eof_received/connection_lost/pause_writing/resume_writing, "
+    "how much they buffer) - they are the environment: arbitrary op sequences in SockProto, arbitrary oracle scripts in UnixLoop",
+    "transport contract assumed where a theorem says so (validated by the end-to-end runs): data_received payloads are "
+    "non-empty and only delivered while reading is resumed; connection_lost(None) only after a local close/abort; "
+    "pause_writing/resume_writing alternate; write() with the zero write-buffer limit calls pause_writing synchronously "
+    "whenever it could not hand everything to the kernel; kernel recv(n) returns at most n bytes, send() accepts 1..len bytes",
+    "transport.is_closing() and protocol.connection_lost() are one atomic env op in the model (in asyncio the flag is set one "
+    "loop iteration earlier; the checkpoint in receive()/send() makes the window unobservable on FIFO loops)",
+    "receive_fds/send_fds, UDP and listeners are out of scope; accept()/connect() are exercised end-to-end only",
+    "back-pressure bounds of the end-to-end monitors (16 MiB in flight for TCP, 4 MiB for UNIX, 12 MiB read queue) are "
+    "empirical margins over the kernel defaults of this machine, not theorems",
+    "closing a raw UNIX socket with unread input makes the KERNEL reset the connection (peer sees BrokenResourceError): "
+    "the close scenario reads its input first; observed, not modelled",
+]
+
+
+def parse_sock_steps(out: list[int]):
+    """Split a SockProto observation stream into per-step result codes (ignoring the final dump)."""
+    codes = []
+    i = 0
+    while i < len(out) and out[i] != -1:
+        c = out[i]
+        codes.append(c)
+        i += (2 + out[i + 1]) if c == 3 else 1
+        i += NOBS
+    return codes
+
+
+def first_diff_step(e, m):
+    k = next((i for i in range(min(len(e), len(m))) if e[i] != m[i]), min(len(e), len(m)))
+    # translate the flat index into a step number using the implementation's stream
+    i = step = 0
+    while i < len(e) and e[i] != -1:
+        n = ((2 + e[i + 1]) if e[i] == 3 else 1) + NOBS
+        if k < i + n:
+            return step
+        i += n
+        step += 1
+    return step
+
+
+def start_e2e(tier: str):
+    import subprocess
+    procs = []
+    for fam, lp in E2E_CONFIGS:
+        cmd = [core.PY, str(core.VERIF / "harness" / "c18_sock_e2e.py"), fam, lp, tier, str(core.seed())]
+        p = subprocess.Popen(cmd, env=core.impl_env(), cwd=str(core.VERIF), stdout=subprocess.PIPE,
+                             stderr=subprocess.PIPE, text=True)
+        procs.append(((fam, lp), cmd, p))
+    return procs
+
+
+def collect_e2e(procs, tier):
+    results = []
+    for cfg, cmd, p in procs:
+        try:
+            out, err = p.communicate(timeout=300 if tier == "quick" else 1500)
+        except Exception:  # noqa: BLE001
+            p.kill()
+            out, err = p.communicate()
+            results.append({"config": list(cfg), "violations": [{"scenario": "run", "what": "end-to-end run timed out (deadlock?)",
+                                                               "params": {}}], "facts": {}, "cmd": cmd})
+            continue
+        try:
+            d = json.loads(out.strip().splitlines()[-1])
+        except Exception:  # noqa: BLE001
+            d = {"config": list(cfg), "violations": [{"scenario": "run", "what": f"end-to-end run failed: rc={p.returncode} {err[-800:]}",
+                                                      "params": {}}], "facts": {}}
+        d["cmd"] = cmd
+        results.append(d)
+    return results
+
+
+def check(tier: str) -> int:
+    import time
+    rep = core.Report("C18", tier)
+    rep.assumptions = core.TRUSTED_BASE_COMMON + [
+        "models boundary/SockProto.v (StreamProtocol + SocketStream.receive/send/send_eof/aclose + ResourceGuard, "
+        "_asyncio.py:1248-1407 at HEAD; variant stepv true = pinned tree before ab750b3) and boundary/UnixLoop.v "
+        "(UNIXSocketStream.receive/send, _RawSocketMixin, :1410-1500) hand-written; cancellation modelled as native "
+        "Task.cancel() on a suspended task",
+        "harness (a): real classes over a FAKE transport / FAKE raw socket on SchedLoop (loop.add_reader/add_writer replaced "
+        "by recording stubs on the loop instance, in the harness only); (b): real sockets, monitors only",
+    ] + NOT_EXHIBITED
+    proofs_ok = core.proof_stage(rep, "props/C18.v")
+    exe_s = core.build_driver("sockproto", "SockProto")
+    exe_u = core.build_driver("unixloop", "UnixLoop")
+    e2e_procs = start_e2e(tier)
+
+    rng = random.Random(core.seed())
+    # ---------------- (a1) SockProto ----------------
+    sruns = []
+    corpus_dir = core.VERIF / "corpus" / "C18"
+    corpus_e2e = []
+    uruns_corpus = []
+    for f in sorted(corpus_dir.glob("*.json")):
+        c = json.loads(f.read_text())
+        if c.get("kind") == "sockproto":
+            sruns.append(sock_run_script(bool(c["reading0"]), c["ntasks"], [tuple(o[:3]) + (tuple(o[3]),) for o in c["ops"]]))
+        elif c.get("kind") == "unixloop":
+            uruns_corpus.append(UnixRun(c["call"], c["cancel0"], c["busy"], c["closing0"], c["mx"], c["item"],
+                                        [tuple(e[:2]) + ((tuple(e[2]),) if len(e) > 2 else ()) for e in c["script"]]))
+        elif c.get("kind") == "e2e":
+            corpus_e2e.append(c)
+    n_corpus = len(sruns) + len(uruns_corpus) + len(corpus_e2e)
+    n_random = 2500 if tier == "quick" else 40000
+    for _ in range(n_random):
+        sruns.append(sock_random_case(rng, rng.choice([6, 10, 16, 24, 40, 60])))
+    t0 = time.time()
+    if tier == "quick":
+        ex = sock_exhaustive(1, 4, False) + sock_exhaustive(2, 3, False)
+    else:
+        ex = sock_exhaustive(2, 5, False) + sock_exhaustive(1, 5, False) + sock_exhaustive(2, 3, True)
+    n_ex_s = len(ex)
+    sruns += ex
+    scases = [r.case() for r in sruns]
+    sexp = [r.final for r in sruns]
+    smodel = core.run_driver(exe_s, scases)
+    sdis = []
+    srejected = 0
+    for r, c, e, m in zip(sruns, scases, sexp, smodel):
+        if e != m:
+            sdis.append({"model": "SockProto", "reading0": r.reading0, "ntasks": r.ntasks, "ops": [list(o) for o in r.ops],
+                         "ops_readable": readable(r.ops), "impl": e, "model_out": m, "first_diff_step": first_diff_step(e, m)})
+        srejected += sum(1 for k in parse_sock_steps(m) if k == 9)
+    smon = [(r, msg) for r in sruns for msg in r.mon]
+
+    # ---------------- (a2) UnixLoop ----------------
+    ucands = uruns_corpus + [unix_random_case(rng) for _ in range(2500 if tier == "quick" else 25000)]
+    ucands += unix_exhaustive(3 if tier == "quick" else 5)
+    n_ex_u = len(ucands) - len(uruns_corpus) - (2500 if tier == "quick" else 25000)
+    ucases = [r.case() for r in ucands]
+    umodel = core.run_driver(exe_u, ucases)
+    uruns, ucs, uexp, umo = [], [], [], []
+    fuel_dropped = 0
+    for r, c, m in zip(ucands, ucases, umodel):
+        if m[:1] == [9] or not r.valid():
+            fuel_dropped += 1          # script too short for the call / wait ended by a second close: not a behaviour of the code
+            continue
+        r.execute()
+        uruns.append(r)
+        ucs.append(c)
+        uexp.append(r.expected)
+        umo.append(m)
+    udis = [{"model": "UnixLoop", "case": c, "script_readable": [(UOPN[e[0]],) + tuple(e[1:]) for e in r.script],
+             "impl": e, "model_out": m}
+            for r, c, e, m in zip(uruns, ucs, uexp, umo) if e != m]
+    umon = [(r, msg) for r in uruns for msg in r.mon]
+
+    # ---------------- kernel-checked samples ----------------
+    sample_n = 50 if tier == "quick" else 300
+    idx = list(range(len(scases)))
+    rng.shuffle(idx)
+    idx = [i for i in idx if len(scases[i]) < 400][:sample_n]
+    vm_ok_s, _ = core.coq_eval_cases("c18s", "SockProto", [scases[i] for i in idx], [sexp[i] for i in idx])
+    uidx = list(range(len(ucs)))
+    rng.shuffle(uidx)
+    uidx = uidx[:sample_n]
+    vm_ok_u, _ = core.coq_eval_cases("c18u", "UnixLoop", [ucs[i] for i in uidx], [uexp[i] for i in uidx])
+
+    # ---------------- (b) end-to-end ----------------
+    e2e = collect_e2e(e2e_procs, tier)
+    e2e_viol = [(d, v) for d in e2e for v in d["violations"]]
+    for d in e2e:
+        af = d.get("anyio_file", "")
+        if af and not af.startswith(str(core.REPO)):
+            e2e_viol.append((d, {"scenario": "run", "what": f"end-to-end run imported anyio from {af}", "params": {}}))
+    planned = {(s[0], tuple(s[1])) for d in e2e for s in d.get("facts", {}).get("scenario_s", [])}
+    for c in corpus_e2e:
+        if (c["scenario"], (c["direction"], c["mode"])) not in planned:
+            rep.notes.append(f"corpus e2e case {c['scenario']}/{c['mode']}/{c['direction']} was not run")
+
+    # ---------------- decide ----------------
+    seen = set()
+    for r, msg in smon:
+        if msg in seen or len(seen) >= 4:
+            continue
+        seen.add(msg)
+        rs = sock_shrink(r)
+        msg2 = rs.mon[0] if rs.mon else msg
+        rep.violation(msg2, {"kind": "monitor", "model": "SockProto", "reading0": rs.reading0, "ntasks": rs.ntasks,
+                             "ops": [list(o) for o in rs.ops], "ops_readable": readable(rs.ops), "all_messages": rs.mon[:6],
+                             "replay": "c18.sock_run_script(reading0, ntasks, [tuple(o) for o in ops], quiesce=False).mon"})
+    seen = set()
+    for r, msg in sorted(umon, key=lambda x: len(x[0].case())):
+        if msg in seen or len(seen) >= 4:
+            continue
+        seen.add(msg)
+        rep.violation(msg, {"kind": "monitor", "model": "UnixLoop", "call": "send" if r.kind == 0 else "receive",
+                            "cancel0": r.cancel0, "busy": r.busy, "closing0": r.closing0, "max_bytes": r.mx, "item": r.item,
+                            "script": [list(e) for e in r.script], "script_readable": [(UOPN[e[0]],) + tuple(e[1:]) for e in r.script],
+                            "send_call_args": [list(a) for a in r.send_args[:8]], "handed": list(r.handed), "case": r.case(),
+                            "replay": "c18.UnixRun(kind, cancel0, busy, closing0, mx, item, script).execute().mon"})
+    seen = set()
+    for d, v in e2e_viol:
+        key = (v["scenario"].split("/")[0], v["what"][:40])
+        if key in seen or len(seen) >= 6:
+            continue
+        seen.add(key)
+        rep.violation(f"[{d['config'][0]}/{d['config'][1]}] {v['scenario']}: {v['what']}",
+                      {"kind": "e2e-monitor", "config": d["config"], "scenario": v["scenario"], "params": v["params"],
+                       "seed": core.seed(), "replay_cmd": " ".join(d.get("cmd", []) + [v["scenario"].split("/")[0]])})
+    monitor_hits = len(smon) + len(umon) + len(e2e_viol)
+    tie_broken = []
+    if not proofs_ok:
+        tie_broken.append("proof obligation: " + str(rep.coverage.get("proof_failure", {}).get("where")))
+    if sdis:
+        tie_broken.append("correspondence SockProto.run_case vs StreamProtocol/SocketStream")
+    if udis:
+        tie_broken.append("correspondence UnixLoop.run_case vs UNIXSocketStream")
+    if srejected:
+        tie_broken.append(f"SockProto model rejected {srejected} ops the implementation performed")
+    if not (vm_ok_s and vm_ok_u) and not (sdis or udis):
+        tie_broken.append("vm_compute sample disagrees with extracted model")
+    if tie_broken and not monitor_hits:
+        d = min(sdis, key=lambda d: len(d["ops"])) if sdis else (min(udis, key=lambda d: len(d["case"])) if udis else None)
+        rep.violation("; ".join(tie_broken), {"kind": "tie", "broken": tie_broken, "case": d}, no_input=True)
+
+    # ---------------- evidence ----------------
+    flags: dict[str, int] = {}
+    for r in sruns:
+        for f in r.flags:
+            flags["sock:" + f] = flags.get("sock:" + f, 0) + 1
+    for r in uruns:
+        for f in r.flags:
+            flags["unix:" + f] = flags.get("unix:" + f, 0) + 1
+    interesting = {"chunk_split_or_exact", "busy_recv", "busy_send", "send_waited_for_gate", "recv_after_close", "cancel_in_call",
+                   "end_of_stream"}
+    distinct = len({tuple(c) for c, r in zip(scases, sruns) if r.flags & interesting}) + \
+        len({tuple(c) for c, r in zip(ucs, uruns) if r.flags & {"partial_send", "would_block", "closed_error", "busy"}})
+    opcount: dict[str, int] = {}
+    for r in sruns:
+        for o in r.ops:
+            opcount[OPN[o[0]]] = opcount.get(OPN[o[0]], 0) + 1
+    e2e_facts = {}
+    for d in e2e:
+        f = d.get("facts", {})
+        key = "/".join(d["config"])
+        e2e_facts[key] = {
+            "scenarios": len(f.get("scenario_s", [])),
+            "bytes": sum(f.get("sizes_total_bytes", [])) + sum(f.get("duplex_bytes", [])),
+            "peak_read_queue": max(f.get("peak_read_queue", [0]) + f.get("bp_peak_rq", [0])),
+            "writer_stalled_at_bytes": f.get("bp_stalled_at"),
+            "busy_both_directions": f.get("busy"),
+            "leftover_after_close": f.get("close_leftover_returned"),
+            "violations": len(d["violations"]),
+            "wall_s": round(sum(s[2] for s in f.get("scenario_s", [])), 1),
+        }
+    rep.coverage.update({
+        "trusted_base": rep.assumptions,
+        "evaluations": len(sruns) + len(uruns) + sum(v["scenarios"] for v in e2e_facts.values()),
+        "programs": len(sruns) + len(uruns),
+        "traces_validated_against_impl": len(sruns) - len(sdis) + len(uruns) - len(udis),
+        "disagreements_checked": len(sdis) + len(udis),
+        "distinct_nontrivial": distinct,
+        "rule": "SockProto: random walk over the ops the implementation enables (idle task: receive/send/send_eof/aclose; suspended "
+                "task: resume if its wake-up is queued, native cancel; transport callbacks at any time, 70% of the cases under the "
+                "transport contract), 1-4 tasks, then quiescence; plus exhaustive enumeration of all enabled op sequences over a small "
+                "alphabet to a fixed depth.  UnixLoop: random oracle scripts generated by simulating the call (10% contract-violating "
+                "answers), plus every script over a 6-letter alphabet up to a fixed length.  Non-trivial = reaches a chunk split, a "
+                "rejected concurrent call, a send waiting for the gate, a call on a closed stream, a cancellation inside a call, "
+                "EndOfStream, a partial send, a would-block wait.  End-to-end: 6 configurations x scenarios on real sockets",
+        "exhaustive_small_scope_cases": {"SockProto": n_ex_s, "UnixLoop": n_ex_u},
+        "corpus_cases": n_corpus,
+        "reached": flags,
+        "op_distribution": opcount,
+        "vm_compute_sample": len(idx) + len(uidx),
+        "vm_compute_ok": bool(vm_ok_s and vm_ok_u),
+        "model_rejected_ops": srejected,
+        "unix_scripts_dropped_out_of_fuel_or_invalid": fuel_dropped,
+        "monitor_hits": monitor_hits,
+        "end_to_end": e2e_facts,
+        "samples": [{"model": "SockProto", "ops": readable(sruns[i].ops)[:25], "outs": sexp[i][:60]} for i in idx[:2]] +
+                   [{"model": "UnixLoop", "case": ucs[i], "outs": uexp[i]} for i in uidx[:2]],
+    })
+    for need in ("sock:chunk_split_or_exact", "sock:busy_recv", "sock:busy_send", "sock:send_waited_for_gate",
+                 "sock:recv_after_close", "sock:recv_closed_error", "sock:send_closed_error", "sock:end_of_stream",
+                 "sock:cancel_in_call", "sock:recv_broken", "unix:partial_send", "unix:would_block", "unix:closed_error",
+                 "unix:busy", "unix:cancelled", "unix:recv_eof"):
+        if not flags.get(need):
+            rep.notes.append(f"generator self-check: predicate {need} never reached")
+    return rep.finish()
